@@ -188,8 +188,7 @@ func ParseRtmpUrl(rawUrl string) (ctx UrlContext, err error) {
 	// LastItemOfPath:------------------------------------------> lss_7
 	// RawQuery:vhost=thirdVhost?token=88F4/lss_7---------------> 空
 	//
-	if strings.Count(ctx.PathWithRawQuery, "?") > 1 {
-		index := strings.LastIndexByte(ctx.PathWithRawQuery, '/')
+	if index := strings.LastIndexByte(ctx.PathWithRawQuery, '/'); strings.Count(ctx.PathWithRawQuery, "?") > 1 && index > 0 {
 		ctx.Path = ctx.PathWithRawQuery
 		ctx.PathWithoutLastItem = ctx.PathWithRawQuery[1:index]
 		ctx.LastItemOfPath = ctx.PathWithRawQuery[index+1:]
